@@ -51,6 +51,99 @@ pub fn generate(seed: u64, index: u64) -> LjScenario {
     LjScenario { engine: "S".into(), profile: "C15L".into(), variant: "aarch64_macos".into(), seed, index, pairs, classes }
 }
 
+/// C15, direct sub-check of the entry-branch writer (Linux/Windows flavour): (function, trampoline)
+/// pairs with word-aligned displacements across and beyond +/-128 MiB.  In range: the entry must
+/// decode to a branch to exactly the trampoline.  Out of range: refused, and the entry untouched.
+pub fn generate_b(seed: u64, index: u64) -> LjScenario {
+    let mut rng = Rng::new(simos::rng::scenario_seed(seed, "S/C15B", index));
+    let mut pairs = Vec::new();
+    let mut classes = Vec::new();
+    for _ in 0..32 {
+        let func = (0x1_0000_0000u64 + rng.below(0x3000_0000_0000)) & !3;
+        let c = rng.below(8);
+        let m = 1i64 << 27;
+        let disp: i64 = match c {
+            0 => *rng.pick(&[m - 4, m, m + 4, -m, -m - 4, -m + 4]),
+            1 => *rng.pick(&[2 * m, 2 * m + 0x1000, -2 * m, 4 * m, 1 << 31, -(1i64 << 31), (1 << 32) + 0x100, -(1i64 << 32) - 0x100]),
+            2 => (rng.range(0, 1 << 26) as i64 - (1 << 25)) * 4,          // in range
+            3 => m + 4 * rng.below(1 << 20) as i64,                       // just beyond, above
+            4 => -m - 4 - 4 * rng.below(1 << 20) as i64,                  // just beyond, below
+            5 => 4 * (rng.range(0, 1 << 31) as i64 - (1 << 30)),          // anywhere within +/-4 GiB
+            _ => (rng.range(0, 1 << 20) as i64 - (1 << 19)) * 4,
+        };
+        let jit = func as i64 + disp;
+        if jit < 0x10000 || jit >= 0x4000_0000_0000 {
+            continue;
+        }
+        classes.push(format!("bdisp-class{c}"));
+        pairs.push((func, jit as u64));
+    }
+    classes.sort();
+    classes.dedup();
+    LjScenario { engine: "S".into(), profile: "C15B".into(), variant: "aarch64_linux".into(), seed, index, pairs, classes }
+}
+
+fn execute_b(sc: &LjScenario) -> LjOutcome {
+    let mut out = LjOutcome { violations: Vec::new(), digest: 0x1B, pairs: 0, long_forms: 0, skipped: false, refused: 0 };
+    for (func, jit) in &sc.pairs {
+        let ps = 0x1000u64;
+        let mut w = World::new(ps);
+        let base = func & !(ps - 1);
+        let mut data = vec![0u8; 2 * ps as usize];
+        for (i, b) in data.iter_mut().enumerate() {
+            *b = (i as u8).wrapping_mul(37) ^ 0xA5;
+        }
+        let pristine = data.clone();
+        w.map_fixed(base, 2 * ps, PROT_R | PROT_X, Owner::Text, Some(data));
+        simos::world::install_world(w);
+        let (f, j) = (*func as usize, *jit as usize);
+        let r = ipp_aarch64_linux::__verif_branch_patch(f, j);
+        let w = simos::world::take_world().unwrap();
+        let r = match r {
+            Some(r) => r,
+            None => {
+                out.skipped = true;
+                return out;
+            }
+        };
+        out.pairs += 1;
+        let disp = *jit as i64 - *func as i64;
+        let in_range = (-(1i64 << 27)..(1i64 << 27)).contains(&disp);
+        let now = w.peek(base, 2 * ps as usize).unwrap_or_default();
+        out.digest = out.digest.rotate_left(9) ^ (r.is_ok() as u64) ^ (disp as u64);
+        match (&r, in_range) {
+            (Ok(()), true) => {
+                let x = interp::run_a64(&w, *func, &[(*func, *func + 12)], Some(*jit), 8);
+                if x.error.is_some() || x.returned || x.final_pc != *jit {
+                    out.violations.push(("entry-branch-misses-trampoline[direct]".to_string(), format!("function {:#x}, trampoline {:#x} (displacement {:+#x}): the entry now leads to {:#x} (error {:?})", func, jit, disp, x.final_pc, x.error)));
+                    break;
+                }
+                if x.written & !0x3FE00 != 0 {
+                    out.violations.push(("entry-branch-clobbers-register[direct]".to_string(), format!("function {:#x}, trampoline {:#x}: registers written mask {:#x}", func, jit, x.written)));
+                    break;
+                }
+            }
+            (Err(_), true) => {
+                out.violations.push(("entry-branch-refused-in-range-displacement[direct]".to_string(), format!("function {:#x}, trampoline {:#x} (displacement {:+#x}) was refused although B can encode it", func, jit, disp)));
+                break;
+            }
+            (Ok(()), false) => {
+                out.violations.push(("out-of-range-displacement-not-refused[direct]".to_string(), format!("function {:#x}, trampoline {:#x} (displacement {:+#x}) is beyond the reach of B but was accepted; entry bytes {:02x?}", func, jit, disp, &now[(*func - base) as usize..(*func - base) as usize + 12])));
+                break;
+            }
+            (Err(m), false) => {
+                out.refused += 1;
+                if now != pristine {
+                    let o = (*func - base) as usize;
+                    out.violations.push(("out-of-range-displacement-refused-after-writing[direct]".to_string(), format!("function {:#x}, trampoline {:#x} (displacement {:+#x}): refused ({m:?}) but the entry was already overwritten: {:02x?} (originally {:02x?})", func, jit, disp, &now[o..o + 12], &pristine[o..o + 12])));
+                    break;
+                }
+            }
+        }
+    }
+    out
+}
+
 pub struct LjOutcome {
     pub violations: Vec<(String, String)>,
     pub digest: u64,
@@ -61,6 +154,9 @@ pub struct LjOutcome {
 }
 
 pub fn execute(sc: &LjScenario) -> LjOutcome {
+    if sc.profile == "C15B" {
+        return execute_b(sc);
+    }
     let mut out = LjOutcome { violations: Vec::new(), digest: 0x15, pairs: 0, long_forms: 0, skipped: false, refused: 0 };
     for (pc, target) in &sc.pairs {
         let (pcc, tgt) = (*pc as usize, *target as usize);
